@@ -201,6 +201,12 @@ func (f *fnTrans) instr(ins ssa.Instruction) {
 		val, dom := f.w.MapHeaps(m)
 		r, k, v := f.val(ins.Map), f.val(ins.Key), f.val(ins.Value)
 		f.safety("map", "assignment to entry in nil map", ins.Pos(), Ne(r, IntLit(0)))
+		for _, mi := range f.w.mapInvsFor(m) {
+			if inv, ok := f.mapInv(mi, m, k, v); ok {
+				o := f.oblige("mapinv", "declared entry invariant of "+mi[0]+"."+mi[1]+" holds of the stored entry: "+mi[2], ins.Pos(), strings.Split(mi[3], ","), f.here(), inv)
+				o.Name = fmt.Sprintf("%s/mapinv#%d", f.name, f.nOb["mapinv"]-1)
+			}
+		}
 		hv, hd := f.heap(val), f.heap(dom)
 		oldDom := Select(hd, r)
 		f.setHeap(val, Store(hv, r, Store(Select(hv, r), k, v)))
@@ -667,6 +673,11 @@ func (f *fnTrans) lookup(ins *ssa.Lookup) {
 		v := Ite(in, Select(Select(f.heap(val), x), k), f.w.Zero(u.Elem()))
 		v = f.define("lk_"+ins.Name(), v)
 		f.factHere(f.rangeFact(v, u.Elem()))
+		for _, mi := range f.w.mapInvsFor(u) {
+			if inv, ok := f.mapInv(mi, u, k, v); ok {
+				f.factHere(Implies(in, inv))
+			}
+		}
 		if ins.CommaOk {
 			f.tupleVals[ins] = []Term{v, f.define("lkok", in)}
 		} else {
@@ -693,6 +704,11 @@ func (f *fnTrans) next(ins *ssa.Next) {
 	v := Select(Select(f.heap(val), r), k)
 	f.factHere(Implies(okT, And(Ne(r, IntLit(0)), Select(Select(f.heap(dom), r), k))))
 	f.factHere(f.rangeFact(k, m.Key()))
+	for _, mi := range f.w.mapInvsFor(m) {
+		if inv, ok := f.mapInv(mi, m, k, v); ok {
+			f.factHere(Implies(okT, inv))
+		}
+	}
 	if it, ok := f.rangeIter[rng]; ok {
 		h := f.w.VisitedHeap(m)
 		vis := Select(f.heap(h), it)
